@@ -3,6 +3,7 @@ import signal
 
 from simkit.core import Result, h64
 from simkit.kernel import Sim, current_task
+from simkit import preempt
 from worlds import master, worker as W
 
 ID = "C04"
@@ -87,7 +88,7 @@ def make_case(index, rng, tier):
         at = round(rng.uniform(win[0], max(win[0] + 0.01, win[1])), 3)
         return {"family": fam, "kind": kind, "graceful_timeout": gt, "sig": sig, "clients": clients, "sig_at": at,
                 "sig_tick": rng.randrange(1, 120) if rng.randrange(3) == 0 else None, "keepalive": rng.choice([1, 2, 3]),
-                "threads": rng.randrange(1, 3), "buggify": {"short_recv": rng.randrange(3) == 0}}
+                "threads": rng.randrange(1, 3), "buggify": {"pyticks": rng.randrange(3) == 0, "short_recv": rng.randrange(3) == 0}}
     if fam == "master":
         n = rng.randrange(1, 4)
         scripts = {}
@@ -104,7 +105,7 @@ def make_case(index, rng, tier):
         return {"family": fam, "workers": n, "graceful_timeout": gt, "sig": sig, "scripts": scripts,
                 "sig_at": round(rng.uniform(0.0, 5.0), 2), "sig_tick": rng.randrange(40, 500) if rng.randrange(3) == 0 else None,
                 "unix": rng.randrange(3) == 0, "pidfile": rng.randrange(4) != 0,
-                "buggify": {"fork_child_first": rng.randrange(2) == 0, "spurious_select": rng.randrange(3) == 0,
+                "buggify": {"pyticks": rng.randrange(3) == 0, "fork_child_first": rng.randrange(2) == 0, "spurious_select": rng.randrange(3) == 0,
                             "random_spawn_delay": rng.randrange(2) == 0},
                 "extra": rng.choice([None, None, "second-signal", "killw"])}
     kind = rng.choice(["sync", "gthread", "gevent"])
@@ -115,7 +116,7 @@ def make_case(index, rng, tier):
         clients.append({"ops": ops, "phase": ph})
     return {"family": fam, "kind": kind, "workers": rng.randrange(1, 3), "graceful_timeout": gt, "sig": sig, "clients": clients,
             "sig_at": round(rng.uniform(0.3, 2.5), 2), "unix": False, "pidfile": True, "threads": rng.randrange(1, 3),
-            "keepalive": rng.choice([1, 2]), "buggify": {"fork_child_first": rng.randrange(2) == 0, "short_recv": rng.randrange(3) == 0}}
+            "keepalive": rng.choice([1, 2]), "buggify": {"pyticks": rng.randrange(3) == 0, "fork_child_first": rng.randrange(2) == 0, "short_recv": rng.randrange(3) == 0}}
 
 
 def judge_clients(res, case, clients, specs, stream_first_read, term_time, gt, fam, ctxf):
@@ -183,6 +184,9 @@ def run_worker(case, choices):
     res = Result()
     sim = Sim(choices, max_steps=150000, max_time=200.0)
     sim.buggify = dict(case["buggify"])
+    if case["buggify"].get("pyticks"):
+        preempt.enable()
+        sim.py_ticks = True          # eval-breaker points inside gunicorn's Python code are delivery / pre-emption points too
     gt = case["graceful_timeout"]
     kind = case["kind"]
     w = W.WorkerWorld(sim, kind, {"timeout": 30, "graceful_timeout": gt, "keepalive": case["keepalive"], "threads": case["threads"],
@@ -275,6 +279,9 @@ def run_master(case, choices):
     res = Result()
     sim = Sim(choices, max_steps=150000, max_time=200.0)
     sim.buggify = dict(case["buggify"])
+    if case["buggify"].get("pyticks"):
+        preempt.enable()
+        sim.py_ticks = True          # eval-breaker points inside gunicorn's Python code are delivery / pre-emption points too
     gt = case["graceful_timeout"]
     fam = case["family"]
     bind = "unix:/run/g.sock" if case["unix"] else "127.0.0.1:8000"
